@@ -112,16 +112,23 @@ Definition corr_run (r : run) : bool :=
 
 (** clause codes: 1 export does not validate; 21 import panics because the feed's request context is
     missing on B (the service genesis did not import); 2 import panics otherwise; 41 a feed's value
-    history reads differently on B; 3 second export differs; 4 a feed or its state reads differently
+    history reads differently on B; 42 ... and in another way than the recorded finding (only the oldest
+    value of each feed left); 3 second export differs; 4 a feed or its state reads differently
     on B; 5 B's running queue disagrees with the exported states.
     Clause 3 compares the second export without the values (their loss is clause 41). *)
 Definition values_view (s : state) := map (fun x => (fst x, rev (map snd (snd x)))) (vals s).
+(** the recorded finding 41 in its exact shape: of every feed's history only the OLDEST value survives *)
+Definition collapsed (v : list (Z * list value)) : list (Z * list value) :=
+  map (fun x => (fst x, match rev (snd x) with [] => [] | o :: _ => [o] end)) v.
 Definition strip (g : genesis) : list (feed * Z) := map fst g.
 Definition prop_clauses (r : run) : list (Z * bool) :=
     [ (1, r_val r);
       (21, (r_imp r =? 0) || forallb (fun en => has (o_ctx (fst (fst en))) (r_eB r)) (r_gA r));
       (2, (r_imp r =? 0) || negb (forallb (fun en => has (o_ctx (fst (fst en))) (r_eB r)) (r_gA r)));
       (41, match r_sB r with Some b => eqb (values_view b) (values_view (r_sA r)) | None => true end);
+      (42, match r_sB r with
+           | Some b => eqb (values_view b) (values_view (r_sA r)) || eqb (values_view b) (collapsed (values_view (r_sA r)))
+           | None => true end);
       (3, match r_gB r with Some g => eqb (strip g) (strip (r_gA r)) | None => true end);
       (4, match r_sB r with Some b => eqb (feeds b) (feeds (r_sA r)) | None => true end);
       (5, match r_sB r with
@@ -149,4 +156,4 @@ Definition check_oracle (c : case) : Z * Z * Z :=
     | _ => true
     end in
   let '(prop, code) := pick_violation known_codes (run_fails (c_runs c) 0) in
-  (if pre_ok then first_div (c_runs c) 0 else 1, prop, code).
+  prefer_divergence known_codes (if pre_ok then first_div (c_runs c) 0 else 1, prop, code).
